@@ -151,6 +151,36 @@ func prewriteOutcome(e *sim.Entry) string {
 	return negative
 }
 
+// refusedLater: a prewrite of key k sent after attempt p had returned, and answered before the rollback rb went
+// out, was refused with a write conflict or already-exists error that names k itself. Had p (whose answer was lost)
+// written the lock, the re-sent prewrite would have found the transaction's own lock - or, after a resolver
+// committed the transaction, its own commit record (TiKV looks for that record when the request is marked as a
+// retry, hence the q.Retry condition) - and succeeded; the refusal therefore proves that k is not locked and the
+// transaction not committed, so p no longer counts as "may have been prewritten".
+func refusedLater(prewrites []*sim.Entry, p, rb *sim.Entry, k string) bool {
+	if p.DoneEv == 0 {
+		return false
+	}
+	for _, q := range prewrites {
+		if q.SentEv <= p.DoneEv || q.DoneEv == 0 || q.DoneEv >= rb.SentEv || !q.Answered || !q.Retry {
+			continue
+		}
+		resp, ok := q.Resp.(*kvrpcpb.PrewriteResponse)
+		if !ok || resp.GetRegionError() != nil {
+			continue
+		}
+		for _, ke := range resp.GetErrors() {
+			if c := ke.GetConflict(); c != nil && string(c.GetKey()) == k {
+				return true
+			}
+			if a := ke.GetAlreadyExist(); a != nil && string(a.GetKey()) == k {
+				return true
+			}
+		}
+	}
+	return false
+}
+
 func keysOf(muts []*kvrpcpb.Mutation) []string {
 	var ks []string
 	for _, m := range muts {
@@ -423,7 +453,7 @@ func Check(in Input) ([]Violation, Stats) {
 					kOK := false
 					for _, p := range x.prewrites {
 						if p.SentEv < rb.SentEv && hasKey(p.Req.(*kvrpcpb.PrewriteRequest).Mutations, []byte(k)) {
-							if o := prewriteOutcome(p); o == success || o == unknown || (o == pending) {
+							if o := prewriteOutcome(p); (o == success || o == unknown || o == pending) && !refusedLater(x.prewrites, p, rb, k) {
 								kOK = true
 							}
 						}
@@ -451,13 +481,20 @@ func Check(in Input) ([]Violation, Stats) {
 		}
 
 		// ---- M7: timestamps
-		var commitTS uint64
-		for _, c := range x.commits {
+		// one commit ts per transaction, except that the store may refuse a commit ts as expired (a reader pushed the
+		// lock's min-commit ts past it): nothing was committed under the refused ts and the client draws a new one
+		tsExpired := func(c *sim.Entry) bool {
+			resp, ok := c.Resp.(*kvrpcpb.CommitResponse)
+			return ok && c.Err == "" && resp.GetRegionError() == nil && resp.GetError().GetCommitTsExpired() != nil
+		}
+		for i, c := range x.commits {
 			r := c.Req.(*kvrpcpb.CommitRequest)
-			if commitTS != 0 && r.CommitVersion != commitTS {
-				add("M7-one-ts", "txn %d: commit requests carry two commit timestamps %d and %d", start, commitTS, r.CommitVersion)
+			for _, prev := range x.commits[:i] {
+				if pv := prev.Req.(*kvrpcpb.CommitRequest).CommitVersion; pv != r.CommitVersion && !(prev.DoneEv != 0 && prev.DoneEv < c.SentEv && tsExpired(prev)) {
+					add("M7-one-ts", "txn %d: commit requests carry two commit timestamps %d and %d, and the request with the first one was not refused as expired: %s", start, pv, r.CommitVersion, sim.DescribeEntry(prev))
+					break
+				}
 			}
-			commitTS = r.CommitVersion
 			if r.CommitVersion <= start {
 				add("M7-start", "txn %d: commit ts %d does not exceed the start ts", start, r.CommitVersion)
 			}
